@@ -6,6 +6,14 @@ VERIF = os.path.dirname(os.path.dirname(os.path.abspath(__file__)))
 
 # id -> (category, technique, text, note)
 CLAIMS = {
+    'C08': ('other',
+            'static analysis: read/write-set inference over the lifter\'s IR templates (E4) with get_r(mem_read) semantics, compared with an architecture effects table',
+            'For every live decoder variant x operand form of the mnemonics in ref/ia32_effects.ref (integer core + x87/SSE instructions with implicit flag/register effects) the '
+            'identifiers and memory cells the lifted assignments read contain every architectural input (explicit operands by position, implicit registers, condition-code flags, '
+            'df, memory through esi/edi/esp) and the written set contains every architectural output; the generic MMX fallback is thereby shown insufficient exactly for the '
+            'instructions listed as known findings.',
+            'Not decided: dependencies absent from my reference table. Trusted: ref/ia32_effects.ref, ref/ia32_cc.ref, E4 form model. Read set counts the address of memory destinations '
+            '(ExprAff.get_r alone does not report it by design). 47 genuine omissions are known findings (BCD stubs, cmpxchg flags, in/out, fcmovcc, ptest/pcmp?str?/blendv/maskmov).'),
     'C04': ('other',
             'static analysis: abstract interpretation of the lifter\'s IR templates (E4) in a boolean-function domain (condition codes) and a bit-slice domain (carry/overflow), plus flag write-set and term-identity rules against an architecture table',
             'Decides the flag/condition discipline of the integer core for every value of the operands: the truth table over cf/zf/sf/of/pf of every jcc/setcc/cmovcc '
